@@ -17,7 +17,7 @@ import tempfile
 def sh(cmd, cwd, timeout=1800):
     env = dict(os.environ, GOFLAGS="-mod=mod", GOPROXY="off")
     env.pop("GOTOOLCHAIN", None)
-    p = subprocess.run(cmd, cwd=cwd, shell=True, env=env, stdout=subprocess.PIPE, stderr=subprocess.STDOUT, text=True,
+    p = subprocess.run(cmd, cwd=cwd, shell=True, executable='/bin/bash', env=env, stdout=subprocess.PIPE, stderr=subprocess.STDOUT, text=True,
                        timeout=timeout)
     return p.returncode, p.stdout
 
